@@ -13,6 +13,15 @@ Theorem C07_sound :
 Proof. exact @sat_sound. Qed.
 Print Assumptions C07_sound.
 
+(* the sign stays sound under every predicate semantics (standard, +-inf by satisfaction, 0): the interface-aware monitors *)
+Theorem C07_ia :
+  forall (VS : Val) (AR : Arith VS), SignLaws AR ->
+  forall (pk : formula -> formula -> pkind) (p : formula) (w : trace) (n : nat), is_bool p = true ->
+  forall t, (ltb (azero AR) (rho AR pk p w n t) = true -> sat AR p w n t = true) /\
+            (ltb (rho AR pk p w n t) (azero AR) = true -> sat AR p w n t = false).
+Proof. exact @sat_sound_pk. Qed.
+Print Assumptions C07_ia.
+
 (* the same for the value offline evaluate() reports at sample t *)
 Theorem C07_offline :
   forall (VS : Val) (AR : Arith VS), SignLaws AR ->
